@@ -36,6 +36,7 @@ type Rec struct {
 	Rule         string
 	Exhaustive   bool
 	Assumptions  []string
+	infra        string
 	MinDistinct  int // below this the run is reported as "observed too little"
 }
 
@@ -89,6 +90,9 @@ func (r *Rec) Sample(v any) {
 	}
 	r.mu.Unlock()
 }
+
+// Infra marks the run as an infrastructure failure (never a verdict).
+func (r *Rec) Infra(msg string) { r.mu.Lock(); r.infra = msg; r.mu.Unlock() }
 
 func (r *Rec) Inconclusive(n int) { r.mu.Lock(); r.inconclusive += n; r.mu.Unlock() }
 
@@ -154,7 +158,7 @@ func (r *Rec) Write() error {
 		"samples": r.samples, "violations": viol, "inconclusive": r.inconclusive,
 		"extra": r.extra, "rule": r.Rule, "exhaustive": r.Exhaustive,
 		"assumptions": r.Assumptions, "wall_s": time.Since(r.start).Seconds(),
-		"min_distinct": r.MinDistinct,
+		"min_distinct": r.MinDistinct, "infra": r.infra,
 	}
 	b, err := json.MarshalIndent(out, "", " ")
 	if err != nil {
